@@ -28,14 +28,15 @@ ASSUMPTIONS = [
     "of handling the signal (1 s loop period + the 0.1 s polling sleeps of Arbiter.stop)",
     "siginterrupt(SIGTERM, False): the handler does not wake recv/accept-style calls (it runs when they return) but does wake "
     "select/sleep (PEP 475 then resumes them)",
-    "the real GeventWorker.run() executes on a shim of the gevent primitives it uses (simkit/gevent_shim.py: Pool, StreamServer, sleep, spawn, Timeout); the eventlet run() loop is NOT executed",
+    "the real GeventWorker.run() executes on a shim of the gevent primitives it uses (simkit/gevent_shim.py: Pool, StreamServer, sleep, spawn, Timeout)",
+    "the real EventletWorker.run(), _eventlet_serve and _eventlet_stop execute on a shim of the eventlet primitives they use (simkit/eventlet_shim.py: spawn/GreenThread kill-wait-link, GreenPool, GreenSocket accept, sleep, Timeout, StopServe); real eventlet hub scheduling order is not modelled beyond 'one green thread runs until it blocks'",
     "a request on a connection of which no byte had been read is not demanded to be answered",
 ]
 COMPONENTS = {"real": ["Arbiter.run/handle_term|int|quit/halt/stop/kill_workers/reap_workers", "sock.close_sockets/UnixSocket", "Pidfile.unlink",
                        "Worker.init_signals/handle_exit/handle_quit", "SyncWorker.run/run_for_one/wait/handle", "ThreadWorker.run (drain of futures)/handle",
                        "GeventWorker.run (heartbeat loop, drain, stop)/handle_quit + AsyncWorker.handle keep-alive loop"],
               "stub": ["kernel", "stub worker run loop (master family)", "selector/executor/lock (gthread)", "clients"],
-              "shim": ["gevent Pool/StreamServer/sleep/spawn/Timeout (simkit.gevent_shim)"], "not_covered": ["geventlet.EventletWorker.run"]}
+              "shim": ["gevent Pool/StreamServer/sleep/spawn/Timeout (simkit.gevent_shim)", "eventlet spawn/GreenPool/GreenSocket/sleep/Timeout/kill (simkit.eventlet_shim)"], "not_covered": ["ssl", "real gevent/eventlet hubs"]}
 
 PHASES = ["idle", "head_partial", "app_running", "resp_partial", "keepalive_idle"]
 SIG = {"TERM": signal.SIGTERM, "QUIT": signal.SIGQUIT, "INT": signal.SIGINT}
@@ -77,11 +78,11 @@ def make_case(index, rng, tier):
     gt = rng.choice([1, 2, 3])
     sig = rng.choice(["TERM", "TERM", "TERM", "QUIT", "INT"])
     if fam == "worker":
-        kind = rng.choice(["sync", "gthread", "gevent"])
+        kind = rng.choice(["sync", "gthread", "gevent", "eventlet"])
         phase = rng.choice(PHASES)
         ops, win, app = phase_client(rng, phase, gt)
         clients = [{"ops": ops, "phase": phase}]
-        if kind in ("gthread", "gevent") and rng.randrange(2):
+        if kind in ("gthread", "gevent", "eventlet") and rng.randrange(2):
             ph2 = rng.choice(PHASES)
             ops2, win2, app2 = phase_client(rng, ph2, gt)
             clients.append({"ops": ops2, "phase": ph2})
@@ -109,7 +110,7 @@ def make_case(index, rng, tier):
                 "buggify": {"pyticks": rng.randrange(3) == 0, "fork_child_first": rng.randrange(2) == 0, "spurious_select": rng.randrange(3) == 0,
                             "random_spawn_delay": rng.randrange(2) == 0},
                 "extra": rng.choice([None, None, "second-signal", "killw", "ttou-before", "hup-before"])}
-    kind = rng.choice(["sync", "gthread", "gevent"])
+    kind = rng.choice(["sync", "gthread", "gevent", "eventlet"])
     clients = []
     for i in range(rng.randrange(1, 4)):
         ph = rng.choice(PHASES[1:])
@@ -131,7 +132,7 @@ def judge_clients(res, case, clients, specs, stream_first_read, term_time, gt, f
         if fr is None or fr > term_time + 1e-9:
             continue                      # nothing of it had been read: not demanded
         ph = spec["phase"]
-        if case.get("kind") == "gevent" and ph == "head_partial":
+        if case.get("kind") in ("gevent", "eventlet") and ph == "head_partial":
             gaps = [op[1] for op in spec["ops"][2:] if op[0] == "wait"]
             if gaps and max(gaps) >= case.get("keepalive", 2) - 0.1:
                 continue       # the async keep-alive timeout also bounds how long a request head may take: independent of TERM
@@ -253,7 +254,7 @@ def run_worker(case, choices):
             bound = max(fins + [term_time]) + 1.5
             if case["sig"] == "TERM" and kind == "gthread":
                 bound = max(fins + [term_time + 1.0]) + 1.5
-            if kind == "gevent":
+            if kind in ("gevent", "eventlet"):
                 # heartbeat loop (1 s) + drain loop (1 s steps, idle keep-alive handlers count as busy until the graceful
                 # timeout) + stop(timeout=1)
                 bound = max(fins + [term_time]) + gt + 3.5
